@@ -685,3 +685,17 @@ Fixpoint strip_comments (st : lexst) (s : string) : string :=
       end
   end.
 Definition engine_lex (s : string) : string := strip_comments LOut s.
+
+(* ------------------------------------------------------------------------------------------------ *)
+(* 8. value TERMS (expressions over columns, functions, sub-queries ...): the text the shared renderer writes for a    *)
+(*    value in the VALUES position of an INSERT / in the SET-value position of an UPDATE                               *)
+(* ------------------------------------------------------------------------------------------------ *)
+Definition ins_value_ctx (c : cls) : ctx :=
+  set_subq (set_wa (set_wn (kc (defaults c (top_ctx c))) false) true) true.
+Definition ins_value_res (c : cls) (v : term) : res string :=
+  render (ins_value_ctx c) (map_tref (resolve_tref []) v).
+Definition set_value_ctx (c : cls) (tbl : tref) (w : option term) : ctx :=
+  let B := set_wn (kc (defaults c (top_ctx c))) (upd_wns tbl w) in
+  if clause_subq_setvalue then set_subq B true else B.
+Definition set_value_res (c : cls) (tbl : tref) (w : option term) (v : term) : res string :=
+  render (set_value_ctx c tbl w) (map_tref (resolve_tref []) v).
